@@ -21,6 +21,7 @@ def check(run, only=None):
         else:
             gs += corpus.random_grammars(2000, n_prods=(4, 5))
         p2 = dict(params, corrupted=5 if quick else 6)
+        gs += [tuple((l, tuple(r)) for l, r in g) for g in corpus.RECOVERY_ALL_STRINGS]
         results = fw.pmap(recmon.rec_worker, [("C11", g, params) for g in gs] +
                           [("C11", tuple((l, tuple(r)) for l, r in g), p2) for g in corpus.RECOVERY])
         out = fw.merge_worker_results(results, RULE.format(n=3, s=params["strategies"], a=params["alphabet"],
